@@ -5,9 +5,10 @@
     [inert_html] the compile-time string of one inert element; [parse] reads HTML into an element
     tree with attribute SETS and merged text (comments dropped); [denote] is defined on the
     template alone.  [wf]: readable names, no component tags, void elements empty, raw-text
-    elements hold text without "</", blocks are non-empty strings, no <script> below an SVG / MathML
-    element (finding F-C18-j: which of svg::script / html::script / the inert string renders it
-    depends on siblings; compared by the harness only).  [KnownClass] = finding
+    elements hold text without "</", blocks are non-empty strings, no element named script / style /
+    noscript below an SVG / MathML element (the HTML parser reads those as ordinary elements there;
+    the model threads the parent namespace and the foreign-content flag for them and is compared
+    with the code byte for byte, finding F-C18-l).  [KnownClass] = finding
     F-C18-f (a <title> with two text children), for which the statements are refuted below.
     The model covers elements, attributes, class:/style: forms, attributes that are instructions to
     the builder and render nothing (on:, prop:, use:, node_ref: one constructor [ASilent]), text,
@@ -81,9 +82,9 @@ Print Assumptions C18_static_parts_stable_except_known.
 (** an element renders the same bytes whatever escape flag / position its parent hands down:
     below a raw-text ancestor (<noscript>) its text is escaped by its own kind, on both paths *)
 Theorem C18_element_ignores_parent_escape :
-  forall io top e1 e2 pos1 pos2 tag attrs ch,
-  r_node io top e1 pos1 (NElem tag attrs ch) = r_node io top e2 pos2 (NElem tag attrs ch)
-  /\ inert_node e1 (NElem tag attrs ch) = inert_node e2 (NElem tag attrs ch).
+  forall io top pt f e1 e2 pos1 pos2 tag attrs ch,
+  r_node io top e1 pt pos1 (NElem tag attrs ch) = r_node io top e2 pt pos2 (NElem tag attrs ch)
+  /\ inert_node f e1 (NElem tag attrs ch) = inert_node f e2 (NElem tag attrs ch).
 Proof. exact element_ignores_parent_escape. Qed.
 Print Assumptions C18_element_ignores_parent_escape.
 
